@@ -216,6 +216,13 @@ def vectors(run):
     for t in ('12', ' 7 ', '1,5', '12%', '01/02/2024', '2024-02-01', '10:30', 'abc', '', '1 234,5', '1e3', '-0.5', True, 2.0, 2.5):
         V.append(('_value', (str(t),)))
         V.append(('_excel_value_to_string', (t,)))
+    # numbers at the edges of their notations (whole-valued floats around 10**15 / 10**16 / 10**21, negative zero, tiny and huge magnitudes,
+    # integers beyond 2**63): the text of a number is part of what both runtimes must agree on
+    for x in (1e15, -1e15, 1e15 + 2, 999999999999999.0, 1e16, 2e16, 123456789012345680.0, 1e21, 1e22, -0.0, 0.0, 1e-5, 1.5e-7, 1e-16, 1.5e300, -2.5e-300,
+              0.1 + 0.2, 1 / 3, 2 / 3 * 1e15, 10 ** 15, 10 ** 20, -(2 ** 63), 2 ** 53 + 1, 100.0, -7.0):
+        V.append(('_excel_value_to_string', (x,)))
+        V.append(('_concat_arrays_values', ([x], ['u'])))
+        V.append(('_compare', ('==', x, x)))
     # C11
     r = run.tlc('Gen_C11', ['INIT Init', 'NEXT Next', 'CONSTANT Kind = "SHAPES"', 'CONSTANT R = 2', 'CONSTANT Cols = 2'], workers=1, timeout=300, tag='C20_Gen_C11_S')
     tab = r.records[0]
